@@ -68,7 +68,15 @@ S10 = ("{g0} = 2\n{g1} = 3\n\n\ndef deco(v):\n    return lambda f: f\n\n\n@deco(
 S10_HOLES = {"g0": ["a", "b"], "g1": ["b", "c"], "p0": ["a", "b"], "u0": ["a", "b"], "p1": ["a", "b", "c"], "u1": ["a", "b", "c"], "ann": ["int", "{g0}.__class__"],
              "l0": ["a", "c"], "u2": ["a", "b", "c"]}
 
-SCHEMAS = {"S10": (S10, S10_HOLES), "S9": (S9, S9_HOLES), "S8": (S8, S8_HOLES), "S6": (S6, S6_HOLES), "S7": (S7, S7_HOLES), "S1": (S1, S1_HOLES), "S2": (S2, S2_HOLES), "S3A": (S3A, S3A_HOLES), "S3B": (S3B, S3B_HOLES), "S3C": (S3C, S3C_HOLES),
+# receivers whose names are not plain ASCII identifiers or are soft keywords
+S11 = ("class K:\n    {k0} = 1\n\n    def {m0}(self):\n        return self.{k0}\n\n\n{g0} = K()\n{g1} = [K()]\nprint({g0}.{k0}, {g0}.{m0}(), {g1}[0].{k0})\n")
+S11_HOLES = {"k0": ["a", "b"], "m0": ["c", "d"], "g0": ["caf\u00e9", "match", "case", "type", "_", "a"], "g1": ["stra\u00dfen", "b"]}
+# three nested functions: the outermost binds the variable, the innermost declares it nonlocal
+S12 = ("{g0} = 1\n\n\ndef outer():\n    {l0} = 10\n\n    def mid({p1}):\n        {mb}\n\n        def inner():\n            nonlocal {l0}\n            {w}\n            return {l0}\n"
+       "        return inner() + {u1}\n    return mid(2) + {l0}\n\n\nprint(outer(), {g0})\n")
+S12_HOLES = {"g0": ["a", "b"], "l0": ["a", "b"], "p1": ["c", "b"], "mb": ["pass", "c0 = 5"], "w": ["{l0} = 7", "{l0} += 1"], "u1": ["a", "b"]}
+
+SCHEMAS = {"S12": (S12, S12_HOLES), "S11": (S11, S11_HOLES), "S10": (S10, S10_HOLES), "S9": (S9, S9_HOLES), "S8": (S8, S8_HOLES), "S6": (S6, S6_HOLES), "S7": (S7, S7_HOLES), "S1": (S1, S1_HOLES), "S2": (S2, S2_HOLES), "S3A": (S3A, S3A_HOLES), "S3B": (S3B, S3B_HOLES), "S3C": (S3C, S3C_HOLES),
            "S3D": (S3D, S3D_HOLES), "S3E": (S3E, S3E_HOLES), "S4": (S4, S4_HOLES), "S5": (S5, S5_HOLES)}
 
 
